@@ -162,6 +162,7 @@ def run(tier):
     run.bounds = ['Graph n<=%d one step; two-step histories n<=%d; three-step histories n=2 (thorough)' % ((3, 2) if tier == 'quick' else (4, 3)),
                   'DirectedGraph n<=%d incl. loops; BipartiteGraph sides up to (3,2)/(2,3); CompleteBipartiteGraph sides<=3' % (2 if tier == 'quick' else 3),
                   'arguments from -1/0 up to n+2']
+    run.bounds += ['three observation schedules per history (views read before and after every step / after every step / only at the end)', 'add_edges_from given a list, tuple, generator, iterator, map, zip or dict keys', 'networkx sweep (plain enumeration): every view incl. is_dag after to_networkx/from_networkx on the whole box; hand-built networkx DiGraphs and bipartite graphs']
     run.outside = ['larger graphs, longer histories', 'symbolic reasoning about unknown vertex numbers (not reachable: hashing realises them)']
     run.assumptions = ['CrossHair exhaustiveness accounting; model = python set of pairs',
                        'add_edges_from with an illegal edge: either sequential semantics (earlier edges stay) or no effect is accepted']
